@@ -214,6 +214,9 @@ func init() {
 		obx := ob
 		obx.path = model.PathExchange
 		scs = append(scs, plainScenario("C01-S4S5-batch-reset-shrink/exchange", obx, cfgs([]int{1}, []int{0}, one, uPQ), d, worldOracle, plainPreludes(ct.P, ct.Q, model.PathMapN)[:2]))
+		// large configurations (> 64 rows per table, > 128 archetypes)
+		scs = append(scs, scaleRows(d-2)...)
+		scs = append(scs, scaleArchetypes(d-2))
 		return &Check{ID: "C01", Scenarios: scs,
 			Rule: "all histories over five alphabets (plain moves through MapN / Map / ExchangeN / ID-based API; pointer-bearing, zero-size and large components; relation moves; batch moves; Reset and Shrink interleaved) with entity selectors oldest/middle/newest, from 3 preludes, capacities {1,2,8}, component ID offsets {0,62,63,126,190,250}; after every history the whole world (every entity, component set, value via Unsafe.Get and Map.Get, query Get pointers) is compared with the model; distinct = distinct model states; non-trivial = >=1 alive entity"}
 	}
